@@ -120,6 +120,21 @@ class C07(Prop):
         for fb in ('f90000', 'f97e00', 'f97c01', 'fa7f800001', 'fa7fc00000', 'fb7ff0000000000001', 'fb3ff8000000000000', 'fb3fb999999999999a', 'f93c00', 'fa47c35000', 'fb7ff8000000000001', 'f98001', 'fa00000001', 'fb0000000000000001'):
             ops.append(mk('chain Value b' + fb, k='float'))
             ops.append(mk('chain ClaimsSet b' + 'a104' + fb, k='float'))
+        # floats (every width, NaNs with payloads, non-shortest widths) as extra parameters of *protected* headers at every carrying position:
+        # the stored bytes must survive although float equality is not reflexive
+        for fb in ('f97e00', 'f97e01', 'fa7fc00000', 'fa7fc00001', 'fb7ff8000000000000', 'fb7ff8000000000001', 'fbfff8000000000000', 'f93e00', 'fa3fc00000', 'fb3ff8000000000000', 'fb3ff8000000000001', 'f90000', 'f98000', 'fa00000000'):
+            for pm in ('a120' + fb, 'a2012620' + fb, 'a220' + fb + '0126', 'bf20' + fb + 'ff', 'a1613f82' + fb + fb):
+                ph = bytes.fromhex(pm); pb = refcbor.head(2, len(ph)) + ph
+                ops.append(mk('chain CoseSign1 b' + (b'\x84' + pb + b'\xa0\xf6\x40').hex(), k='protfloat'))
+                ops.append(mk('chaint CoseSign1 b' + (b'\xd2\x84' + pb + b'\xa0\xf6\x40').hex(), k='protfloat'))
+                ops.append(mk('chain CoseMac0 b' + (b'\x84' + pb + b'\xa0\xf6\x40').hex(), k='protfloat'))
+                ops.append(mk('chain CoseEncrypt0 b' + (b'\x83' + pb + b'\xa0\xf6').hex(), k='protfloat'))
+                ops.append(mk('chain CoseSignature b' + (b'\x83' + pb + b'\xa0\x40').hex(), k='protfloat'))
+                ops.append(mk('chain CoseSign b' + (b'\x84\x40\xa0\xf6\x81\x83' + pb + b'\xa0\x40').hex(), k='protfloat'))
+                ops.append(mk('chain CoseRecipient b' + (b'\x84' + pb + b'\xa0\xf6\x81\x83' + pb + b'\xa0\xf6').hex(), k='protfloat'))
+                ops.append(mk('chain CoseMac b' + (b'\x85' + pb + b'\xa0\xf6\x40\x81\x83' + pb + b'\xa0\xf6').hex(), k='protfloat'))
+                ops.append(mk('chain Header b' + (b'\xa1\x07\x83' + pb + b'\xa0\x40').hex(), k='protfloat'))
+                ops.append(mk('chain CoseKdfContext b' + (b'\x84\x01\x83\xf6\xf6\xf6\x83\xf6\xf6\xf6\x82\x18\x80' + pb).hex(), k='protfloat'))
         # exhaustive short
         for t in ('Value', 'Label', 'Header', 'CoseKey', 'ClaimsSet', 'PartyInfo'):
             for a in range(256):
